@@ -3,6 +3,8 @@ import re
 
 
 def nontrivial(req, obs):
+    if req.startswith("cchain ") and " @@ " in req:      # the recorded observation is part of the request
+        obs = req.split(" @@ ", 1)[1]
     # an order is exercised: some handler runs >= 2 middlewares, or sees >= 2 decorators of one kind
     for blk in obs.split():
         for ent in blk.split(";"):
@@ -22,7 +24,9 @@ PROP = {
         "Wm.Chain.wrap_eq_compose", "Wm.Chain.chain_trace", "Wm.Chain.enter_mem_iff", "Wm.Chain.leave_mem_iff",
         "Wm.Chain.own_and_router_level_run", "Wm.Chain.no_foreign_middleware",
         "Wm.Chain.decoratePublisher_eq_compose", "Wm.Chain.decorateSubscriber_eq_compose",
-        "Wm.Chain.pub_decorators_in_order", "Wm.Chain.sub_decorators_in_order", "Wm.Chain.msg_trace_spec",
+        "Wm.Chain.pub_decorators_in_order", "Wm.Chain.sub_decorators_in_order", "Wm.Chain.sub_decorators_in_order_from",
+        "Wm.Chain.msg_trace_spec", "Wm.Chain.chain_perm_invariant", "Wm.Chain.chain_sublist",
+        "Wm.Chain.plugins_loaded_before_handlers_start",
         "Wm.Chain.exec_regs", "Wm.Chain.started_frozen", "Wm.Chain.program_chain_trace",
     ],
     # re-proved on every run against lean/WmModel/Gen/ChainLoops.lean, which the extractor prints from message/router.go
@@ -40,12 +44,23 @@ PROP = {
             "the two AddHandler calls early or as late as possible (4 variants, publisher / no-publisher alternating); decs: every pair "
             "of decorator-list lengths 0..5 x 0..5, as one variadic call and as single calls; random: 2500 (quick) / 40000 (thorough) seeded programs with 1..4 "
             "handlers, up to 20 registrations in variadic calls of 1..2, up to 5+5 decorators, 1..3 RUN phases (handlers added after Run "
-            "and started by RunHandlers, registrations after a handler started). Oracles: model observation equality and the property "
+            "and started by RunHandlers, registrations after a handler started; unusual legal handler names; in a quarter of them "
+            "handlers share an application-decorated subscriber object; RouterPlugins that register when Run executes them); "
+            "shared_decorated_subscriber: 8 programs in which the SAME MessageTransformSubscriberDecorator-wrapped subscriber built "
+            "by the application is given to 2..4 handlers, with router subscriber decorators - each handler's message passes the "
+            "application's transform, then each registered decorator exactly once in order, and decorators and handler function "
+            "see that handler's context values only (s<i>w / hx otherwise); plugins: 9 programs with AddPlugin plugins performing "
+            "AddMiddleware / AddPublisherDecorators / AddSubscriberDecorators - they act on every handler added before Run, a plugin "
+            "added after Run never runs; concurrent_registration: 400 (quick) / 6000 (thorough) programs with one block of "
+            "overlapping Handler.AddMiddleware calls from 2..4 goroutines released together (same and different handlers, 1..3 "
+            "calls each) between sequential registrations - the observation is part of the request (cchain) and the model checks "
+            "that SOME serialisation of the block explains it; the monitor demands every registered middleware exactly once, "
+            "sequential order and each goroutine's own order preserved, order between goroutines free. Oracles: model observation equality and the property "
             "monitor. Non-trivial = some handler runs >= 2 middlewares or sees >= 2 decorators of one kind.",
     "trusted_base": [
         "Lean 4.33.0 kernel; axioms per theorem listed under theorem_axioms (subset of propext, Classical.choice, Quot.sound)",
         "extractor harness/cmd/extract/c09.go (go/ast: loop header, filter condition and body of handler.run, decorateHandlerPublisher, "
-        "decorateHandlerSubscriber; 27 structural facts about registration, snapshot and storing of the results) and the interpreter "
+        "decorateHandlerSubscriber; 29 structural facts about registration, snapshot and storing of the results) and the interpreter "
         "WmModel/ChainGo.lean as the semantics of those loop shapes",
         "Go semantics of slices/append/closures; a HandlerMiddleware / decorator is modelled as an arbitrary function alpha -> alpha",
         "differential harness harness/cmd/c09 (real Router, scripted subscribers, recording middlewares and decorators) + Lean driver "
@@ -60,6 +75,11 @@ PROP = {
         "'in the order they were added' is read along the message flow: the publisher decorator added first sees an outgoing message "
         "first (it is the outermost wrapper - the godoc sentence 'the first decorator is the innermost' describes the subscriber side "
         "only); the subscriber decorator added first sees an incoming message first (innermost, right after the router's context decorator).",
+        "Overlapping registration is covered for Handler.AddMiddleware only (it takes middlewaresLock): the model is sequential, a "
+        "block of overlapping calls is checked against all its serialisations; theorems chain_perm_invariant / chain_sublist say "
+        "what every serialisation has in common.",
+        "Plugins: Run executes the plugins, in the order added, before it starts any handler; RunHandlers on the running router "
+        "does not (model loadPlugins; theorem plugins_loaded_before_handlers_start).",
         "Router.AddMiddleware does not take middlewaresLock: programs register from one goroutine and only after every started handler "
         "has processed a message (so its snapshot has been taken); concurrent registration is outside the property.",
     ],
@@ -73,7 +93,7 @@ PROP = {
                   "shapes are extracted from the current source and proved equal to the model on every run; the model and an "
                   "independent monitor are compared with traces of the real Router on exhaustive short and random long programs.",
     "level_note": "Proved about the model, not about the Go code; the tie is checked on every run (generated loop shapes + interpreter + "
-                  "4 tie theorems, 27 structural facts, differential harness with -race). Middlewares and decorators are modelled as "
+                  "4 tie theorems, 29 structural facts, differential harness with -race). Middlewares and decorators are modelled as "
                   "pure functions; concurrency of registration with running handlers is not covered.",
     "technique": "Lean 4 theorems over a hand-written executable model + generated deep-embedded loop shapes with tie theorems + "
                  "differential correspondence check against the Go code",
